@@ -86,16 +86,98 @@ Proof.
   - unfold alt_of. apply alt_of_acc. right. exists k. auto.
 Qed.
 
+Lemma flat_map_csets_in (ls : list re) l cs : In l ls -> In cs (csets l) -> In cs (flat_map csets ls).
+Proof. intros Hl Hc. apply in_flat_map. exists l. auto. Qed.
+
+Lemma alt_elems_sem r s : matches r s <-> exists x, In x (alt_elems r) /\ matches x s.
+Proof.
+  induction r as [| |cs|a IHa b IHb|a IHa b IHb|a IHa]; simpl;
+    try (split; [intros H; eexists; split; [left; reflexivity | exact H] | intros [x [[<-|[]] H]]; exact H]).
+  rewrite alt_inv, IHa, IHb. split.
+  - intros [[x [Hx Mx]]|[x [Hx Mx]]]; exists x; (split; [apply in_or_app; auto | exact Mx]).
+  - intros [x [Hx Mx]]. apply in_app_or in Hx. destruct Hx as [Hx|Hx]; [left | right]; exists x; auto.
+Qed.
+Lemma alt_sub_sound l k : alt_sub l k = true -> forall s, matches l s -> matches k s.
+Proof.
+  unfold alt_sub. rewrite forallb_forall. intros H s M. apply alt_elems_sem in M. destruct M as [x [Hx Mx]].
+  specialize (H x Hx). apply orb_true_iff in H. destruct H as [H|H].
+  - destruct x; try discriminate. exfalso. eapply empty_inv; eauto.
+  - apply existsb_exists in H. destruct H as [y [Hy E]]. apply re_eqb_eq in E. subst y.
+    apply alt_elems_sem. exists x. auto.
+Qed.
+
+Theorem incl_many_sound fuel ls K : incl_many fuel ls K = true ->
+  forall l, In l ls -> forall s, bytes_lt256 s -> matches l s -> matches K s.
+Proof.
+  unfold incl_many. intros H l Hl s Hs Ml.
+  destruct (alt_sub l (norm K)) eqn:Et.
+  { apply norm_iff. eapply alt_sub_sound; eauto. }
+  assert (Hl' : In l (filter (fun l0 => negb (alt_sub l0 (norm K))) ls)).
+  { apply filter_In. split; [exact Hl | rewrite Et; reflexivity]. }
+  destruct (filter (fun l0 => negb (alt_sub l0 (norm K))) ls) as [|x0 ls0] eqn:Ef; [contradiction|].
+  set (ls' := x0 :: ls0) in *.
+  set (atoms := dedup (flat_map csets ls' ++ csets (norm K)) []) in *.
+  destruct (explore (pick_reps atoms) fuel (map (fun l => (l, norm K)) ls') (PositiveMap.empty _)) as [tbl|]; [|discriminate].
+  rewrite !andb_true_iff in H. destruct H as [[[H1 Hk] Hls] H3].
+  rewrite forallb_forall in Hls. specialize (Hls l Hl'). apply andb_true_iff in Hls. destruct Hls as [Ha H2].
+  unfold ok_pair in H2. simpl in H2. apply orb_true_iff in H2. destruct H2 as [H2|H2].
+  { destruct l; try discriminate H2; exfalso; eapply empty_inv; eauto. }
+  apply norm_iff. eapply (check_sound atoms (pick_reps atoms) H1 tbl H3 s l (norm K) H2).
+  - apply atoms_in_spec. exact Ha.
+  - apply atoms_in_spec. exact Hk.
+  - exact Hs.
+  - exact Ml.
+Qed.
+
+Lemma dedup_re_in x : forall l acc, (In x l \/ In x acc) -> In x (dedup_re l acc).
+Proof.
+  induction l as [|y l IH]; intros acc H; simpl.
+  - destruct H as [[]|H]; exact H.
+  - destruct (existsb (re_eqb y) acc) eqn:E.
+    + apply IH. destruct H as [[->|H]|H]; auto.
+      right. apply existsb_exists in E. destruct E as [z [Hz Ez]]. apply re_eqb_eq in Ez. subst z. exact Hz.
+    + apply IH. destruct H as [[->|H]|H]; [right; left; reflexivity | left; exact H | right; right; exact H].
+Qed.
+Lemma dedup_re_sub x : forall l acc, In x (dedup_re l acc) -> In x l \/ In x acc.
+Proof.
+  induction l as [|y l IH]; intros acc H; simpl in H; [right; exact H|].
+  destruct (existsb (re_eqb y) acc).
+  - destruct (IH acc H) as [K|K]; [left; right; exact K | right; exact K].
+  - destruct (IH (y :: acc) H) as [K|[->|K]]; [left; right; exact K | left; left; reflexivity | right; exact K].
+Qed.
+
+Theorem quot2_sound fuel R L K : quot2 fuel R L K = true ->
+  forall w r, bytes_lt256 w -> bytes_lt256 r -> matches R w -> matches L (w ++ r) -> matches K r.
+Proof.
+  unfold quot2.
+  destruct (qexplore (pick_reps (dedup (csets (norm R) ++ csets (norm L)) [])) fuel [(norm R, norm L)] (PositiveMap.empty _)) as [tbl|]; [|discriminate].
+  rewrite !andb_true_iff. intros [[[[[H1 Ha] Hl] Hs] Hq] Hi] w r Hw Hr Mw Ml.
+  destruct (lqcheck_sound _ _ (dedup_re (lq_collect tbl) []) H1 tbl Hq w (norm R) (norm L) Hs) with (r := r) as [k [Hk Mk]].
+  - apply atoms_in_spec. exact Ha.
+  - apply atoms_in_spec. exact Hl.
+  - exact Hw.
+  - apply norm_iff. exact Mw.
+  - apply norm_iff. exact Ml.
+  - exact (incl_many_sound fuel _ K Hi k Hk r Hr Mk).
+Qed.
+
 Definition nf2_pred (o : option re) (t : list byte) : Prop := match o with Some X => ~ matches X t | None => True end.
 Lemma kx2_sem o K t : nf2_pred o t -> matches (Kx2 o K) t -> matches K t.
 Proof.
   destruct o as [X|]; simpl; [|auto]. intros Hn M. apply alt_inv in M. destruct M as [M|M]; [exact M | contradiction].
 Qed.
-Lemma quot2_sem o R L K : quot_auto CF R L (Kx2 o K) = true ->
+Lemma quot2_sem o R L K : quot2 CF R L (Kx2 o K) = true ->
   forall w t, bytes_ok (w ++ t) -> matches R w -> nf2_pred o t -> matches L (w ++ t) -> matches K t.
 Proof.
   intros H w t Hb Mw Hn Ml. apply (kx2_sem o K t Hn).
-  exact (quot_auto_sound CF R L (Kx2 o K) H w t (bytes_ok_app_l _ _ Hb) (bytes_ok_app_r _ _ Hb) Mw Ml).
+  exact (quot2_sound CF R L (Kx2 o K) H w t (bytes_ok_app_l _ _ Hb) (bytes_ok_app_r _ _ Hb) Mw Ml).
+Qed.
+
+Lemma quotf_sem o R L K : quot2 CF R L (Kx o K) = true ->
+  forall w t, bytes_ok (w ++ t) -> matches R w -> nf_pred o t -> matches L (w ++ t) -> matches K t.
+Proof.
+  intros H w t Hb Mw Hn Ml. apply (kx_sem o K t Hn).
+  exact (quot2_sound CF R L (Kx o K) H w t (bytes_ok_app_l _ _ Hb) (bytes_ok_app_r _ _ Hb) Mw Ml).
 Qed.
 
 Lemma cat_assoc_r A B K s : matches (Cat (Cat A B) K) s -> matches (Cat A (Cat B K)) s.
